@@ -369,6 +369,11 @@ def run_job(job, specdir, keep_dir):
             r.props.append({"id": p["property"], "desc": p.get("description", ""), "status": p["status"],
                             "file": loc.get("file", ""), "line": loc.get("line", ""),
                             "function": loc.get("function", "")})
+        lib = [p for p in r.props if p["status"] == "FAILURE" and p["function"].startswith("__CPROVER_contracts_")]
+        if lib:
+            # preconditions of goto-instrument's contract library on the assigns-clause targets themselves: the
+            # loop/function contract is malformed or its frame could not be inferred -- a specification problem
+            raise Undecided("contract library precondition failed (%s in %s): check the assigns clause" % (lib[0]["desc"][:60], lib[0]["function"]))
         nb = [p for p in r.props if p["desc"].startswith("no body for callee") and p["status"] == "FAILURE"]
         if nb:
             raise Undecided("harness incomplete: %s (stub it explicitly)" % nb[0]["desc"])
